@@ -582,6 +582,12 @@ pub fn run_case(ctx: &Ctx, case: &Case, counting: bool) -> PResult {
 				let res = env.pool.add_to_pool(TxSource::Broadcast, tx.clone(), *stem, &header);
 				if counting {
 					ev.class(&format!("submit:{}:{}", label, if res.is_ok() { "admitted" } else { "refused" }));
+					// the reason a must-be-refused submission is refused for (a submission only ever refused for a
+					// side effect — capacity, say — would not test the rule it was built for)
+					if let (Some(true), Err(e)) = (must_refuse, &res) {
+						let s = format!("{:?}", e);
+						ev.class(&format!("refusal:{}:{}", label, s.split(|c: char| c == '(' || c == ' ' || c == '{').next().unwrap_or("")));
+					}
 				}
 				match must_refuse {
 					Some(true) => ensure!(res.is_err(), format!("pool-admitted:{}", label), "op {}: pool admitted a {} transaction", i, label),
